@@ -1,4 +1,4 @@
 \* diagnosis only: apply the logged inputs of one session, print the state Identity.tla expects at its end
 SPECIFICATION TraceSpec
-CONSTANTS AlreadyChecked = TRUE PkPerAuthority = TRUE CheckSubject = TRUE CheckPermission = TRUE Window = 300 RespCap = 10 FitAll = 8 Compare = FALSE
+CONSTANTS AlreadyChecked = TRUE PkPerAuthority = TRUE CheckSubject = TRUE CheckPermission = TRUE CommitBeforeSend = TRUE Window = 300 RespCap = 10 FitAll = 8 Compare = FALSE
 INVARIANT NotDone
